@@ -1,4 +1,5 @@
 import Storrent.Lemmas.PieceSteps
+import Storrent.Gen.LockTable
 /-
 C01 — Only hash-verified data is ever readable.
 
@@ -333,6 +334,46 @@ theorem C01_deleted_refuses (s : State) (hdel : s.deleted = true) (i : Nat) :
       by_cases h : p.state ≠ .incomplete
       · rw [if_pos h]
       · rw [if_neg h, if_pos hdel]
+
+/-! ### tie to the source: the lock discipline the atomic steps rely on
+
+One `Step` of the model = one hold of `ps.mu`.  That is only a faithful granularity if every
+access to the shared fields happens inside the hold the model assigns it to, and if the test
+that guards an access (ReadAt's `complete()`, AddData's/Finalise's re-test) is made in the
+SAME hold as the access.  `Gen.lockTable` is regenerated from tor/piece/piece.go on every run
+(harness/cmd/extract/locktable.go); a change such as "test completeness with the atomic
+accessor before taking the lock" changes the table and fails both theorems. -/
+
+open Storrent.LockTable in
+theorem C01_gen_locktable :
+    Gen.lockTable = expectedLockTable ∧ Gen.lockAssumed = expectedLockAssumed ∧
+    Gen.lockFunctions = expectedLockFunctions := by decide
+
+open Storrent.LockTable in
+theorem C01_lock_discipline : disciplineOk Gen.lockTable Gen.lockAssumed = true := by decide
+
+open Storrent.LockTable in
+/-- what `C01_lock_discipline` says about the buffers, spelled out: in the current source,
+    every access to `data` in ReadAt / AddData / Finalise sits in a lock hold in which the
+    piece's state was tested under that same lock. -/
+theorem C01_lock_discipline_data (r : Row) (hr : r ∈ Gen.lockTable)
+    (hfn : r.fn = "Pieces.ReadAt" ∨ r.fn = "Pieces.AddData" ∨ r.fn = "Pieces.Finalise")
+    (hf : r.field = "data") (hv : r.via = .plain) :
+    ∃ c, c ∈ Gen.lockTable ∧ c.fn = r.fn ∧ c.via = .call ∧ c.field ∈ stateTests ∧
+      c.hold = r.hold ∧ (c.lock = .wlock ∨ c.lock = .rlock) := by
+  have h := C01_lock_discipline
+  unfold disciplineOk at h
+  simp only [Bool.and_eq_true] at h
+  have h6 := h.2
+  rw [List.all_eq_true] at h6
+  have hrow := h6 r hr
+  have hg : gatedFns.contains r.fn = true := by
+    rcases hfn with e | e | e <;> rw [e] <;> decide
+  simp only [hg, hv, hf, beq_self_eq_true, Bool.true_and, Bool.true_or, Bool.not_true,
+    Bool.false_or, List.any_eq_true, Bool.and_eq_true, Bool.or_eq_true, beq_iff_eq,
+    List.contains_iff_mem] at hrow
+  obtain ⟨c, hc, ⟨⟨⟨⟨h1, h2⟩, h3⟩, h4⟩, h5⟩⟩ := hrow
+  exact ⟨c, hc, h1, h2, h3, h4, h5⟩
 
 /-! ### non-vacuity: a concrete run that completes a piece and reads it back -/
 
